@@ -1,7 +1,7 @@
 """manifest_text.py - wording of the MANIFEST entries (what each check claims and trusts)."""
 HOOK_COMMITS = ["50cd013"]
 PENDING = "check under construction in this session (harness not yet registered); see DESIGN.md section 4 for the planned oracle"
-NOT_APPLICABLE = {p: PENDING for p in ["C05", "C07", "C14", "C17", "C18"]}
+NOT_APPLICABLE = {p: PENDING for p in ["C17", "C18"]}
 TEXT = {
  "C01": dict(
     technique="property-based testing (rapidcheck): LPs with planted primal-dual certificates x parameter combinations, exact GMP certificate oracle",
@@ -70,4 +70,16 @@ TEXT.update({
     technique="property-based testing with exhaustive fault enumeration: every iteration limit 0..N, every log-line interrupt point, zero/tiny time limits, objective limits both sides, judged against the planted class and the exact certificate oracle, resume differential",
     level_text="For each generated LP x configuration the uninterrupted solve is measured and then a fresh solver is stopped at every iteration count k = 0..N, at every line of the iteration log (interrupt flag raised from inside the solver's output stream, so the stop point is deterministic), with TIMELIMIT 0 / 1e-9 and with objective limits on both sides of the planted optimum; each stopped state is judged (status, iteration count, basis validity, certificate if a verdict is claimed) and the same object is resumed with the limit lifted and must reach the uninterrupted result. A second stage does the same for exact solves (iteration, refinement, stalling-refinement limits). Enumeration is exhaustive per case over stop points, exploration over LPs and configurations.",
     level_note="trusted: planted class/optimum by construction, certificate oracle (certs.hpp); the interrupt is raised from the solver's own output stream (DISPLAYFREQ 1), so interrupt points are the points where the solver prints; the exact solver ignores the interrupt pointer (observation, see DESIGN.md)"),
+ "C05": dict(
+    technique="property-based testing (rapidcheck): basis queries judged against the basis matrix assembled from an exact reference model, every row/column index enumerated per case",
+    level_text="For generated LPs x representation x scaler x persistent scaling x simplifier and bases obtained from solves of every status, iteration-limited solves and generated regular bases (exact rank test), the matrix B is built from the model by the reported basis indices and all rows and all columns of the inverse, the solve, multiply and transpose-multiply calls and the sparse index output are checked exactly (GMP) within a stated tolerance, in the unscaled and (through the read-only hook) the scaled space. Exploration over LPs/configurations, exhaustive over indices per case.",
+    level_note="trusted: exact rank / matrix arithmetic in harness/common/dense.hpp; the scaled columns read through the guarded hook define B for unscale=false; rational counterparts are under C11"),
+ "C07": dict(
+    technique="stateful model-based property testing (rapidcheck): histories over the real, Rational and mpq_t interfaces x sync modes, two exact reference LPs, comparison after every operation",
+    level_text="Histories of 2..60 operations drawn from all add/change/remove/clear entry points of the floating-point interface, the Rational-object interface and the 19 GMP array entry points, interleaved with sync-mode switches, explicit syncs, float and exact solves; values include +-infinity, beyond-infinity, 10^100, zeros, denormal-scale and non-representable rationals. Two exact models (what the rational LP must hold / what the real LP holds) are compared through public getters after every step: rational LP exact, real LP the double image (exact when representable, else one of the two neighbouring doubles), dimensions/sense/offset, and the range-type arrays read through the guarded hook. Exploration.",
+    level_note="trusted: GMP, the two reference models in harness/common/c07_model.hpp; the objective offset inside the LPs has no getter and is judged through a final probe solve; the real LP's own 1e-16 zero tolerance is respected (such writes are not issued)"),
+ "C14": dict(
+    technique="property-based round-trip testing (rapidcheck): basis files and state files, independent BAS parser, fresh-object differential",
+    level_text="LPs x bases (from solves of every status, iteration-limited solves, generated valid status assignments) x {user names, default names, crossed names} x CPLEX flag: writeBasisFile -> independent parser of the documented BAS format -> fresh object -> readBasisFile -> statuses equal; writeStateReal/Rational -> fresh object loads settings, LP and basis -> LP equal to the exact model by name under the documented MPS/LP normalisations, statuses equal, every parameter equal, both objects re-solved to the same status and optimum. Also under ASan/UBSan. Exploration.",
+    level_note="trusted: own BAS parser and the normalisations cited in harness/c14.cpp; the writer branch for an LP held outside the solver is unreachable through the public API in this tree (counter writer_path.unloaded stays 0) and is therefore not exercised"),
 })
